@@ -492,7 +492,9 @@ class C10(BaseCheck):
                                 if self.accepts(o['ver']) or not any(has_v3_value(hs, v) for v in row.values()):
                                     ng.append(row)
                         g = ng
-                        foreign_cols.clear()          # every way of deriving builds (or deep-copies) its own metadata objects
+                        if how != 'deepcopy':
+                            foreign_cols.clear()      # the constructor builds fresh metadata objects bound to the new grid;
+                                                      # a deep copy copies a foreign object together with the foreign grid it answers to
                         if how != 'deepcopy':
                             gver = str(g.version)
                             explicit = True
